@@ -95,6 +95,91 @@ Rspt(M, K) ==
   IN [H |-> H] @@ RsptRec(H, M, K, <<psi0>>, <<e0, e1>>)
 
 (***************************************************************************)
+(* RE partitioning ("retaining the excitation degree"): H0 is the part of  *)
+(* the full Hamiltonian H = H0(mp) + H1(mp) that connects determinants of   *)
+(* the same excitation level (f_oo, f_vv, <oo||oo>, <ov||ov>, <vv||vv>),    *)
+(* H1 the rest.  H0 is not diagonal in the determinant basis: the          *)
+(* perturbed wavefunctions are obtained by solving, level by level,        *)
+(*   (E0 - H0) psi(n+1) = Q ( H1 psi(n) - sum_{k=1..n} E(k) psi(n+1-k) )    *)
+(* with Gauss-Jordan elimination over F_P.                                 *)
+(***************************************************************************)
+RECURSIVE GaussJordan(_, _, _)
+GaussJordan(A, n, c) ==       \* A: n rows of length n+1 (augmented matrix)
+  IF c > n THEN [ok |-> TRUE, A |-> A]
+  ELSE
+    LET cand == {r \in c..n : A[r][c] # 0} IN
+    IF cand = {} THEN [ok |-> FALSE, A |-> A]
+    ELSE
+      LET pv == CHOOSE r \in cand : \A r2 \in cand : r <= r2
+          A1 == [A EXCEPT ![c] = A[pv], ![pv] = A[c]]
+          iv == Inv(A1[c][c])
+          rowc == TLCEval([j \in 1..(n + 1) |-> FMul(A1[c][j], iv)])
+          A2 == TLCEval([r \in 1..n |->
+                   IF r = c THEN rowc
+                   ELSE LET f == A1[r][c] IN
+                        IF f = 0 THEN A1[r]
+                        ELSE TLCEval([j \in 1..(n + 1) |-> FSub(A1[r][j], FMul(f, rowc[j]))])])
+      IN GaussJordan(A2, n, c + 1)
+
+(* solution of  A x = b  (A: n x n as function of rows, b: function on 1..n) *)
+LinSolve(A, b, n) ==
+  LET aug == TLCEval([r \in 1..n |-> TLCEval([j \in 1..(n + 1) |-> IF j <= n THEN A[r][j] ELSE b[r]])])
+      g == GaussJordan(aug, n, 1)
+  IN [ok |-> g.ok, x |-> TLCEval([r \in 1..n |-> g.A[r][n + 1]])]
+
+ExcLevel(D, M) == Cardinality(D \ RefDet(M))
+
+HFullCols(M) ==
+  LET H == H1Cols(M) IN
+  TLCEval([D \in Dets(M) |-> TLCEval([Dp \in Dets(M) |->
+     IF D = Dp THEN FAdd(H[D][Dp], E0Det(D, M)) ELSE H[D][Dp]])])
+
+ReH0Cols(Hf, M) ==
+  TLCEval([D \in Dets(M) |-> TLCEval([Dp \in Dets(M) |->
+     IF ExcLevel(D, M) = ExcLevel(Dp, M) THEN Hf[D][Dp] ELSE 0])])
+ReH1Cols(Hf, M) ==
+  TLCEval([D \in Dets(M) |-> TLCEval([Dp \in Dets(M) |->
+     IF ExcLevel(D, M) = ExcLevel(Dp, M) THEN 0 ELSE Hf[D][Dp]])])
+
+(* x with (E0 - H0) x = rhs on the determinants of excitation level >= 1 *)
+ReResolvent(H0, e0, rhs, M) ==
+  LET levels == {ExcLevel(D, M) : D \in Dets(M)} \ {0}
+      solve(L) ==
+        LET ds == SetToSeq({D \in Dets(M) : ExcLevel(D, M) = L})
+            n == Len(ds)
+            A == TLCEval([r \in 1..n |-> TLCEval([c \in 1..n |->
+                    FSub(IF r = c THEN e0 ELSE 0, H0[ds[c]][ds[r]])])])
+            b == TLCEval([r \in 1..n |-> rhs[ds[r]]])
+            sol == LinSolve(A, b, n)
+        IN [ok |-> sol.ok, ds |-> ds, x |-> sol.x]
+      sols == TLCEval([L \in levels |-> solve(L)])
+      pos(D) == LET s == sols[ExcLevel(D, M)]
+                IN s.x[CHOOSE r \in 1..Len(s.ds) : s.ds[r] = D]
+  IN [ok |-> \A L \in levels : sols[L].ok,
+      v |-> TLCEval([D \in Dets(M) |-> IF D = RefDet(M) THEN 0 ELSE pos(D)])]
+
+RECURSIVE ReRec(_, _, _, _, _, _, _, _)
+ReRec(H0, H1, e0, M, K, psi, E, ok) ==
+  LET n == Len(psi) - 1 IN
+  IF n >= K \/ ~ok THEN [psi |-> psi, E |-> E, ok |-> ok]
+  ELSE
+    LET hp == MatVec(H1, psi[n + 1])
+        corr == FoldSet(LAMBDA k, v : VecAdd(v, VecScale(E[k + 1], psi[n + 1 - k + 1])),
+                        ZeroVec(M), 1..n)
+        r == ReResolvent(H0, e0, VecSub(hp, corr), M)
+        enext == MatVec(H1, r.v)[RefDet(M)]
+    IN ReRec(H0, H1, e0, M, K, Append(psi, r.v), Append(E, enext), r.ok)
+
+ReRspt(M, K) ==
+  LET Hf == HFullCols(M)
+      H0 == ReH0Cols(Hf, M)
+      H1 == ReH1Cols(Hf, M)
+      ref == RefDet(M)
+      psi0 == TLCEval([D \in Dets(M) |-> IF D = ref THEN 1 ELSE 0])
+      e0 == H0[ref][ref]
+  IN [H |-> H1, H0 |-> H0] @@ ReRec(H0, H1, e0, M, K, <<psi0>>, <<e0, H1[ref][ref]>>, TRUE)
+
+(***************************************************************************)
 (* Amplitude tables.  For the excitation class k all tuples                *)
 (* (a_1..a_k virtual; i_1..i_k occupied).                                  *)
 (***************************************************************************)
@@ -175,7 +260,7 @@ PutSeq(tabs, nids, vals, k) ==
 
 RsptModel(M) ==
   LET g == M.gs
-      R == Rspt(M, g.K)
+      R == IF g.variant = "re" THEN ReRspt(M, g.K) ELSE Rspt(M, g.K) @@ [ok |-> TRUE]
       amp == TLCEval([n \in 1..g.K |-> AmpTable(R.psi[n + 1], M, g.maxcls)])
       etabs == [n \in 1..Len(R.E) |-> ConstTab(R.E[n])]
       xs == IF g.d = 0 THEN <<>>
@@ -186,7 +271,7 @@ RsptModel(M) ==
       t3 == PutSeq(t2, g.E, etabs, 1)
       t4 == PutSeq(t3, g.X, xs, 1)
       t5 == IF g.p = <<>> THEN t4 ELSE PutSeq(t4, g.p, DensTables(R, M, g.K), 1)
-  IN [M EXCEPT !.tabs = t5]
+  IN IF R.ok THEN [M EXCEPT !.tabs = t5] ELSE [M EXCEPT !.oracle = "singular"]
 
 (***************************************************************************)
 (* Sanity of the oracle itself (checked by MC_Rspt): intermediate          *)
@@ -208,4 +293,24 @@ OracleSane(M, K) ==
      /\ R.E[2] = e1
      /\ (K >= 1 => R.E[3] = e2)
      /\ \A D1, D2 \in Dets(M) : R.H[D1][D2] = R.H[D2][D1]
+
+(* RE oracle: the perturbation equations hold order by order (the solve is  *)
+(* re-verified by substitution), intermediate normalisation, E(1) = 0, the *)
+(* partial sums of the energy reproduce <Phi|H|psi> and H0 + H1 = H.        *)
+ReOracleSane(M, K) ==
+  LET R == ReRspt(M, K)
+      ref == RefDet(M)
+      Hf == HFullCols(M)
+      eq(n) ==      \* (H0 - E0) psi(n) + H1 psi(n-1) - sum_{k=1..n} E(k) psi(n-k) = 0
+        LET lhs == VecAdd(VecSub(MatVec(R.H0, R.psi[n + 1]), VecScale(R.E[1], R.psi[n + 1])),
+                          MatVec(R.H, R.psi[n]))
+            rhs == FoldSet(LAMBDA k, v : VecAdd(v, VecScale(R.E[k + 1], R.psi[n - k + 1])),
+                           ZeroVec(M), 1..n)
+        IN \A D \in Dets(M) : lhs[D] = rhs[D]
+  IN ~R.ok \/
+     (/\ \A n \in 1..K : eq(n)
+      /\ \A n \in 2..(K + 1) : R.psi[n][ref] = 0
+      /\ R.E[2] = 0
+      /\ \A D1, D2 \in Dets(M) : FAdd(R.H0[D1][D2], R.H[D1][D2]) = Hf[D1][D2]
+      /\ \A D1, D2 \in Dets(M) : R.H0[D1][D2] = R.H0[D2][D1])
 =============================================================================
